@@ -499,9 +499,50 @@ def run_c11(tier, seed):
         seqfamily.compare(lb, lby, ldrift)
         legacy_scn = {sc["id"]: sc for sc in lb.scenarios}
         seqfamily.project(lb, lby, lines, index)
+        # "all histories ... over any keys": the requests of DIFFERENT keys overlap in time (nothing orders them - each key has its own
+        # lock).  Rounds of requests for sixteen keys released at the same moment, neighbours carrying different values, under 1 / 2 / 4 /
+        # 16 processors; what is exported afterwards must state, for every key, the highest values signed FOR THAT KEY
+        burst_scs = []
+        for bi in range(8 if tier == "quick" else 48):
+            kind_ = ("prop", "att")[bi % 2]
+            ops_ = []
+            for rd_ in range(2):
+                grp = []
+                for k_ in range(16):
+                    v_ = (k_ % 2) + 2 * rd_                      # even keys 0 then 2, odd keys 1 then 3
+                    ent_ = dict(k=k_, slot=v_, root="B") if kind_ == "prop" else dict(k=k_, s=max(v_ - 1, 0), t=v_ if v_ else 0, root="B")
+                    if kind_ == "att" and v_ == 1:
+                        ent_ = dict(k=k_, s=0, t=1, root="B")
+                    grp.append(dict(id="u%dr%dk%d" % (bi, rd_, k_), kind=kind_, ents=[ent_], by=("name", "key")[k_ % 2]))
+                ops_.append(dict(id="round%d" % rd_, kind="par", gate=False, ops=grp))
+            ops_.append(dict(id="ex", kind="export"))
+            burst_scs.append(dict(id="C11-burst-%d" % bi, world=dict(nkeys=16), conc=concs[0][1], ops=ops_, gomaxprocs=(1, 2, 4, 16)[(bi // 2) % 4], no_export=True))
+        bev_, brc_, berr_ = run_driver(burst_scs, wd, tag="burst", timeout=900)
+        if brc_ != 0:
+            raise Inconclusive("overlapping requests of different keys: driver exited %s: %s" % (brc_, berr_[-300:]))
+        bby_ = split_scenarios(bev_)
+        burst_scn = {}
+        for sc_ in burst_scs:
+            evs_ = bby_.get(sc_["id"])
+            if not evs_ or not any(e["ev"] == "Export" for e in evs_):
+                raise Inconclusive("overlapping requests of different keys: %s produced no export" % sc_["id"])
+            start = len(lines) + 1
+            seqfamily.project_one(sc_["id"], {}, [], [e for e in evs_ if e["ev"] != "Export"], lines)
+            for e in evs_:
+                if e["ev"] == "Export":
+                    for kn_, rec_ in sorted(e["db"].items()):
+                        lines.append(dict(ev="Exported", k=kn_, s=rec_["as"], t=rec_["at"], slot=rec_["ps"]))
+            index.append((start, len(lines), sc_["id"]))
+            burst_scn[sc_["id"]] = sc_
         ok, violated, pos, tr = seqfamily.validate(lines, ["ExportFaithful", "SamePairsHold", "AboveFloor"], 3, wd)
         info["states"] += tr.distinct
         info["transitions"] += tr.generated
+        if not ok and violated != "trace-not-accepted" and seqfamily.locate(index, pos) in burst_scn:
+            sid = seqfamily.locate(index, pos)
+            seg = [lines[a - 1:b] for a, b, s_ in index if s_ == sid][0]
+            verdict.violation("%s:burst" % violated, "requests of different keys overlapping in time (scenario %s, GOMAXPROCS %s): the export does not state the highest values signed for a key: %s" %
+                              (sid, burst_scn[sid]["gomaxprocs"], lines[pos - 2] if pos and pos >= 2 else ""), dict(burst=True, scenario=burst_scn[sid], trace=seg[-60:], invariant=violated))
+            ok = True   # (reported; nothing further to attribute)
         if not ok:
             if violated == "trace-not-accepted":
                 raise Inconclusive("SeqTrace could not consume line %s" % pos)
@@ -521,7 +562,7 @@ def run_c11(tier, seed):
                    samples=[dict(history=results[0]["hists"][0], exported=results[0]["exported"])],
                    model_runs=info["model_runs"], mutants=info["mutants"], keys_with_signatures=nkeys_signed, histories=len(hists),
                    trace_events_validated=len(lines), exhaustive=False,
-                   legacy_format_scenarios=len(lb.scenarios), legacy_drift=ldrift[:5], legacy_drift_count=len(ldrift),
+                   legacy_format_scenarios=len(lb.scenarios), overlapping_keys_bursts=len(burst_scs), legacy_drift=ldrift[:5], legacy_drift_count=len(ldrift),
                    checker_cmd="tlc Interchange / SlashSeqSim / SeqTrace; real binary dirk --export/--import-slashing-protection")
         write_evidence(prop, tier, seed, "model_checking", cov, time.time() - t0, violations=len(verdict.violations),
                        assumptions=["histories of well-formed requests (epochs below 2^63) as quantified by the property"])
@@ -577,6 +618,16 @@ def replay(prop, path):
             events, rc, err = run_driver([obj["scenario"]], wd, tag="replay")
             seqfamily.project_one(obj["scenario"]["id"], obj["meta"], obj["floors"], events, lines)
             invs = ["AboveFloor"]
+        elif obj.get("burst"):
+            # timing-dependent: the same burst is run five times, all runs are judged
+            for again in range(5):
+                events, rc, err = run_driver([dict(obj["scenario"], id="%s-again%d" % (obj["scenario"]["id"], again))], wd, tag="replay%d" % again)
+                seqfamily.project_one("again%d" % again, {}, [], [e for e in events if e["ev"] != "Export"], lines)
+                for e in events:
+                    if e["ev"] == "Export":
+                        for kn_, rec_ in sorted(e["db"].items()):
+                            lines.append(dict(ev="Exported", k=kn_, s=rec_["as"], t=rec_["at"], slot=rec_["ps"]))
+            invs = ["ExportFaithful"]
         elif prop == "C10":
             pubs = json.loads(subprocess.run([exe, "-pubkeys", "70"], stdout=subprocess.PIPE, text=True).stdout)
             r = one_case((obj["idx"], obj["case"], obj["conc"], pubs, wd))
